@@ -65,6 +65,141 @@ func verifNow() time.Time {
 	return vpBase.Add(time.Duration(vpNow))
 }
 
+// ---- virtual tickers and timers (time.NewTicker / NewTimer / After are rewritten to these by the overlay).
+// The harness fires them when it advances the virtual clock (operation V): timers that are due, and up to
+// vpMaxTicks rounds of ticks for tickers; a blocked call must survive both (it may only return when its channel
+// is READY or its context ended).
+type vpVTimer struct {
+	C        chan time.Time
+	period   int64 // tickers
+	deadline int64 // timers (virtual ns)
+	ticker   bool
+}
+
+var vpVTimers []*vpVTimer // guarded by vpMu
+
+const vpMaxTicks = 35
+
+func vpRegister(t *vpVTimer) *vpVTimer {
+	vpMu.Lock()
+	vpVTimers = append(vpVTimers, t)
+	vpMu.Unlock()
+	return t
+}
+
+func verifNewTicker(d time.Duration) *vpVTimer {
+	return vpRegister(&vpVTimer{C: make(chan time.Time, 1), period: int64(d), ticker: true})
+}
+
+func verifNewTimer(d time.Duration) *vpVTimer {
+	vpMu.Lock()
+	dl := vpNow + int64(d)
+	vpMu.Unlock()
+	return vpRegister(&vpVTimer{C: make(chan time.Time, 1), deadline: dl})
+}
+
+func verifAfter(d time.Duration) <-chan time.Time { return verifNewTimer(d).C }
+func verifSince(t time.Time) time.Duration      { return verifNow().Sub(t) }
+func verifUntil(t time.Time) time.Duration      { return t.Sub(verifNow()) }
+
+func (t *vpVTimer) Stop() bool {
+	vpMu.Lock()
+	defer vpMu.Unlock()
+	for i, x := range vpVTimers {
+		if x == t {
+			vpVTimers = append(vpVTimers[:i:i], vpVTimers[i+1:]...)
+			return true
+		}
+	}
+	return false
+}
+
+func (t *vpVTimer) Reset(d time.Duration) bool {
+	active := t.Stop()
+	vpMu.Lock()
+	if t.ticker {
+		t.period = int64(d)
+	} else {
+		t.deadline = vpNow + int64(d)
+	}
+	vpVTimers = append(vpVTimers, t)
+	vpMu.Unlock()
+	return active
+}
+
+// vpFire delivers what became due by advancing the virtual clock by adv to now.
+func (r *vpRunner) vpFire(adv, now int64) {
+	vpMu.Lock()
+	var due []*vpVTimer
+	rounds := int64(0)
+	for _, t := range vpVTimers {
+		if !t.ticker && t.deadline <= now {
+			due = append(due, t)
+		}
+		if t.ticker && t.period > 0 && adv/t.period > rounds {
+			rounds = adv / t.period
+		}
+	}
+	vpMu.Unlock()
+	for _, t := range due {
+		t.Stop()
+		select {
+		case t.C <- verifNow():
+		default:
+		}
+	}
+	if rounds > vpMaxTicks {
+		rounds = vpMaxTicks
+	}
+	if len(due) > 0 {
+		r.quiesce()
+	}
+	for i := int64(0); i < rounds; i++ {
+		vpMu.Lock()
+		ts := append([]*vpVTimer{}, vpVTimers...)
+		vpMu.Unlock()
+		sent := false
+		for _, t := range ts {
+			if t.ticker && t.period > 0 && adv/t.period > i {
+				select {
+				case t.C <- verifNow():
+					sent = true
+				default:
+				}
+			}
+		}
+		if !sent {
+			break
+		}
+		r.quiesce()
+	}
+}
+
+func (r *vpRunner) maxRefreshCnt() uint {
+	r.gb.mu.RLock()
+	defer r.gb.mu.RUnlock()
+	m := uint32(0)
+	for _, ref := range r.gb.scRefList {
+		if ref.refreshCnt > m {
+			m = ref.refreshCnt
+		}
+	}
+	return uint(m)
+}
+
+// quiesce waits until every blocked pick is parked in its select again or has returned
+func (r *vpRunner) quiesce() {
+	deadline := time.Now().Add(vpWatchdog)
+	for _, p := range r.picks {
+		if !p.blocked {
+			continue
+		}
+		for len(p.res) == 0 && vpGoState(p.goid) != "rrwait" && time.Now().Before(deadline) {
+			runtime.Gosched()
+		}
+	}
+}
+
 func vpGetNow() int64 {
 	vpMu.Lock()
 	defer vpMu.Unlock()
@@ -495,6 +630,7 @@ func (r *vpRunner) call(f func()) string {
 func (r *vpRunner) start(h vpOp) {
 	vpMu.Lock()
 	vpNow = 0
+	vpVTimers = nil
 	vpMu.Unlock()
 	r.hdr = h
 	r.cc = &vpCC{}
@@ -750,6 +886,8 @@ func (r *vpRunner) apply(o vpOp) {
 				p.ctx.cancel()
 			}
 		}
+		r.quiesce()
+		r.vpFire(o.a[0], now)
 	case "X":
 		j := int(o.a[0])
 		if j < 0 || j >= len(r.picks) {
@@ -938,15 +1076,20 @@ func (r *vpRunner) genAndRun(g *vpRng, maxOps int, prop string) {
 				blocked = append(blocked, p.id)
 			}
 		}
+		// a long time passes under a waiting round-robin call: it may only return for its channel or its context
+		if len(blocked) > 0 && g.chance(20) {
+			r.apply(vpOp{kind: "V", a: []int64{g.pick([]int64{3000000001, 10000000000, 60000000001, 3600000000000, 86400000000000})}})
+			continue
+		}
 		// directed mini-scenarios (keep the interesting situations frequent)
 		if npk > 0 && g.chance(12) {
 			latest := int64(npk - 1)
 			// weighted choice of a scenario, biased by the property under check
-			scn := []string{"deadline", "bind", "saturate", "gate", "standin", "none"}[g.intn(6)]
+			scn := []string{"deadline", "bind", "saturate", "gate", "standin", "chain", "none"}[g.intn(7)]
 			if g.chance(60) {
 				switch prop {
 				case "C07":
-					scn = "deadline"
+					scn = []string{"deadline", "deadline", "chain"}[g.intn(3)]
 				case "C01":
 					scn = []string{"bind", "bind", "standin", "deadline"}[g.intn(4)]
 				case "C08", "C02":
@@ -969,6 +1112,49 @@ func (r *vpRunner) genAndRun(g *vpRng, maxOps int, prop string) {
 						if g.chance(30) {
 							r.apply(vpOp{kind: "C", a: []int64{int64(len(r.cc.scs) - 1), 1}})
 						}
+						r.apply(vpOp{kind: "C", a: []int64{int64(len(r.cc.scs) - 1), 2}})
+					}
+				}
+				continue
+			case scn == "chain":
+				// consecutive refreshes without a response: the window doubles every time (ms * 2^k);
+				// calls end just after, exactly at, or half-way through the current window
+				ums := h.a[4]
+				if ums <= 0 || ums > 100000 || h.a[5] <= 0 {
+					continue
+				}
+				for round, rounds := 0, 3+g.intn(8); round < rounds && !r.dead; round++ {
+					k := r.maxRefreshCnt()
+					if k > 40 {
+						break
+					}
+					w := (ums * 1000000) << k
+					before, nsc0 := len(r.picks), len(r.cc.scs)
+					r.apply(vpOp{kind: "P", a: []int64{latest, 0, 1, vpGetNow() + 1000, 0}})
+					if len(r.picks) == before || r.dead {
+						break
+					}
+					dt := w + 1
+					switch g.intn(10) {
+					case 0:
+						dt = w
+					case 1, 2:
+						dt = w/2 + 1000
+					}
+					r.apply(vpOp{kind: "V", a: []int64{dt}})
+					for q := int64(1); q < h.a[5] && q < 4 && !r.dead; q++ {
+						// enough deadline-exceeded calls to reach unresponsive_calls
+						b2 := len(r.picks)
+						r.apply(vpOp{kind: "P", a: []int64{latest, 0, 1, vpGetNow() + 1000, 0}})
+						r.apply(vpOp{kind: "V", a: []int64{1000}})
+						if len(r.picks) > b2 && r.picks[b2].placed && !r.dead {
+							r.apply(vpOp{kind: "D", a: []int64{int64(b2), 2}})
+						}
+					}
+					if r.picks[before].placed && !r.dead {
+						r.apply(vpOp{kind: "D", a: []int64{int64(before), 2}})
+					}
+					if len(r.cc.scs) > nsc0 && !r.dead {
 						r.apply(vpOp{kind: "C", a: []int64{int64(len(r.cc.scs) - 1), 2}})
 					}
 				}
